@@ -230,7 +230,11 @@ func (cache *headersCache) getHeadersAndHashesByNonceAndShardId(nonce uint64, sh
 }
 
 func (cache *headersCache) keys(shardId uint32) []uint64 {
-	shardMap := cache.getShardMap(shardId)
+	// this is called under the read lock of the pool, so it must not create the map of a shard that was not seen yet
+	shardMap, ok := cache.headersNonceCache[shardId]
+	if !ok {
+		return make([]uint64, 0)
+	}
 
 	return shardMap.keys()
 }
